@@ -16,7 +16,8 @@ ASSUMPTIONS = ['string literals are written with TokString.code (C06): their spe
                'valid program = program of the dialect generator (statements never start with a parenthesis)']
 TRUSTED_EXTRA = ['modelled by hand: LuaASTEchoWriter walk handlers as indent assignment over the concrete tree + run renderer, '
                  'LuaFormatterWriter._get_code_for_spaces regex pipeline (Model/AstWriters.lean); parser model of C08']
-PARTIAL = 'C09: "luafmt succeeds on every valid program" is correspondence-tested (it is the agreement of the parser\'s and the writer\'s grammars); token preservation / no silent loss are theorems about the writer model'
+PARTIAL = ('C09: the writers succeed exactly when the parser consumed the whole program (theorem writer_succeeds_iff) and then write every token '
+           '(whole_output); what stays correspondence-tested is that the parser accepts every program of the dialect (C08)')
 WS = b' \t\r\n'
 
 
